@@ -507,8 +507,9 @@ MANIFEST_TEXT = {
     ),
     "C19": dict(
         design_ref="DESIGN.md §4-C19",
-        level_text="PARTIAL claim. Bounded model checking of penguin_mux::timing::Backoff with the parameters of the client's call site (extracted from the current penguin/src/client/mod.rs): for ALL max_retry_interval (u64 ms) and max_retry_count (u32), the k-th consecutive failure is delayed by min(200 ms x 2^k, max), the generator gives up exactly after max_retry_count failures (never if 0), reset() restores the shortest delay, and no Duration arithmetic panics. The rest of C19 (retry loop, retryable classification, listeners, parked request, behaviour on orderly close) lives in the rusty-penguin crate over real sockets/signals and is outside what this technique can encode - stated, not claimed.",
-        level_note="Trusted: Kani/CBMC; the regex that extracts the call-site parameters. Bounds: k <= 6 consecutive failures (quick) / 12 (thorough). Only the back-off arithmetic is decided; the client's control flow is not.",
+        level_text="PARTIAL claim, two parts. (1) Bounded model checking (Kani) of penguin_mux::timing::Backoff with the parameters of the client's call site (extracted from the current penguin/src/client/mod.rs): for ALL max_retry_interval (u64 ms) and max_retry_count (u32), the k-th consecutive failure is delayed by min(200 ms x 2^k, max), the generator gives up exactly after max_retry_count failures (never if 0), reset() restores the shortest delay, no Duration arithmetic panics; plus concrete-parameter runs of 45-70 consecutive failures (command-line defaults, a capped+limited and an uncapped configuration). (2) Source-to-SMT translation of the client's retry loop (gate/retry.py): where reset() is attached, the order and shape of the match arms and the use of advance()'s value are extracted from the current client/mod.rs; for every sequence of 6 loop iterations over {orderly quit, handshake failure retryable/fatal, established-then-lost retryable/fatal} and max_retry_count 0..4, z3 and cvc5 must agree that the loop's trace (delay exponents, way of ending) equals the specification's (k-th consecutive failure, restart after any established connection, give-up, non-retryable ends at once); a counterexample is replayed against the loop's own text compiled in the crate with scripted stubs for its three environment calls. NOT covered: which concrete errors are classified retryable, listeners staying open, the parked stream request - real sockets/signals in the rusty-penguin crate.",
+        level_note="Trusted: Kani/CBMC; z3/cvc5; the extraction grammar of gate/retry.py (anything outside it is INCONCLUSIVE); Backoff's contract links the two parts. Bounds: symbolic-parameter schedules k <= 6 (quick) / 12 (thorough); retry loop 6 iterations.",
+        technique="bounded symbolic execution of the real Backoff (Kani/CBMC) + source-level extraction of the client's retry loop into SMT-LIB decided by z3 and cvc5 (must agree), counterexamples replayed against the loop's own text",
     ),
     "C18": dict(
         design_ref="DESIGN.md §4-C18",
